@@ -30,11 +30,11 @@ theorem hash_ne {h h' d d' : Bytes} (hl : h.length = h'.length) (hne : h ≠ h' 
     · exact h1 this.2
   · left; exact e
 
-/-- HKDF on different `(ck, ikm)` gives outputs all of whose components (as used by Noise)
-    differ, or a `KdfCoincidence`. -/
+/-- HKDF on different `(ck, ikm)` gives outputs whose components as used by Noise (new chaining
+    key, cipher key of `MixKey`, cipher key of `MixKeyAndHash`) all differ, or a `KdfCoincidence`.
+-/
 theorem kdf_ne {ck ikm ck' ikm' : Bytes} (hne : ck ≠ ck' ∨ ikm ≠ ikm') :
     ((hkdf S ck ikm).1 ≠ (hkdf S ck' ikm').1 ∧
-     (hkdf S ck ikm).2.1 ≠ (hkdf S ck' ikm').2.1 ∧
      (hkdf S ck ikm).2.1.take 32 ≠ (hkdf S ck' ikm').2.1.take 32 ∧
      (hkdf S ck ikm).2.2.take 32 ≠ (hkdf S ck' ikm').2.2.take 32) ∨ KdfCoincidence S := by
   have hp : (ck, ikm) ≠ (ck', ikm') := by
@@ -45,13 +45,11 @@ theorem kdf_ne {ck ikm ck' ikm' : Bytes} (hne : ck ≠ ck' ∨ ikm ≠ ikm') :
     · exact h e.2
   by_cases e1 : (hkdf S ck ikm).1 = (hkdf S ck' ikm').1
   · exact Or.inr ⟨ck, ikm, ck', ikm', hp, Or.inl e1⟩
-  by_cases e2 : (hkdf S ck ikm).2.1 = (hkdf S ck' ikm').2.1
-  · exact Or.inr ⟨ck, ikm, ck', ikm', hp, Or.inr (Or.inl e2)⟩
   by_cases e3 : (hkdf S ck ikm).2.1.take 32 = (hkdf S ck' ikm').2.1.take 32
-  · exact Or.inr ⟨ck, ikm, ck', ikm', hp, Or.inr (Or.inr (Or.inl e3))⟩
+  · exact Or.inr ⟨ck, ikm, ck', ikm', hp, Or.inr (Or.inl e3)⟩
   by_cases e4 : (hkdf S ck ikm).2.2.take 32 = (hkdf S ck' ikm').2.2.take 32
-  · exact Or.inr ⟨ck, ikm, ck', ikm', hp, Or.inr (Or.inr (Or.inr e4))⟩
-  exact Or.inl ⟨e1, e2, e3, e4⟩
+  · exact Or.inr ⟨ck, ikm, ck', ikm', hp, Or.inr (Or.inr e4)⟩
+  exact Or.inl ⟨e1, e3, e4⟩
 
 /-! ### Divergence of two SymmetricStates -/
 
@@ -170,7 +168,7 @@ theorem mixKey_div {a b : SymmetricState} (d d' : Bytes) (hd : DivS a b) :
     DivS (a.mixKey S d) (b.mixKey S d') ∨ Coll S := by
   rcases hd with h | ⟨h, _⟩
   · exact Or.inl (Or.inl h)
-  · rcases kdf_ne (S := S) (ikm := d) (ikm' := d') (Or.inl h) with ⟨h1, _, h3, _⟩ | hc
+  · rcases kdf_ne (S := S) (ikm := d) (ikm' := d') (Or.inl h) with ⟨h1, h3, _⟩ | hc
     · left; right
       refine ⟨h1, ?_⟩
       simp only [mixKey_k, ne_eq, Option.some.injEq]; exact h3
@@ -181,7 +179,7 @@ theorem mixKeyAndHash_div {a b : SymmetricState} (d d' : Bytes) (hl : a.h.length
     (hd : DivS a b ∨ d ≠ d') : DivS (a.mixKeyAndHash S d) (b.mixKeyAndHash S d') ∨ Coll S := by
   have key : (a.ck ≠ b.ck ∨ d ≠ d') → DivS (a.mixKeyAndHash S d) (b.mixKeyAndHash S d') ∨ Coll S := by
     intro h
-    rcases kdf_ne (S := S) h with ⟨h1, _, _, h4⟩ | hc
+    rcases kdf_ne (S := S) h with ⟨h1, _, h4⟩ | hc
     · left; right
       refine ⟨h1, ?_⟩
       simp only [mixKeyAndHash_k, ne_eq, Option.some.injEq]; exact h4
